@@ -7,6 +7,7 @@ import (
 	"io"
 	"strconv"
 	"strings"
+	"unicode/utf16"
 
 	"github.com/ChrisTrenkamp/xsel"
 	"github.com/ChrisTrenkamp/xsel/store"
@@ -20,11 +21,11 @@ import (
 
 // jv is a JSON value of the generated universe / of the reference recogniser.
 type jv struct {
-	kind  byte // 'o' object, 'a' array, 's' string, 'n' number, 'l' literal
-	keys  []string
-	kids  []*jv
-	text  string  // string value, literal text, or numeral as written
-	num   float64 // for 'n'
+	kind byte // 'o' object, 'a' array, 's' string, 'n' number, 'l' literal
+	keys []string
+	kids []*jv
+	text string  // string value, literal text, or numeral as written
+	num  float64 // for 'n'
 }
 
 // ---- independent JSON recogniser (RFC 8259 values separated by whitespace) ----
@@ -215,7 +216,23 @@ func (p *jparser) str() (string, error) {
 					return "", errJSON
 				}
 				p.i += 4
-				sb.WriteRune(rune(n))
+				r := rune(n)
+				if utf16.IsSurrogate(r) {
+					// a surrogate pair \uD83D\uDE00 denotes one character; a lone surrogate U+FFFD
+					r2 := rune(-1)
+					if p.i+6 <= len(p.s) && p.s[p.i] == '\\' && p.s[p.i+1] == 'u' {
+						if m, err := strconv.ParseUint(string(p.s[p.i+2:p.i+6]), 16, 32); err == nil {
+							r2 = rune(m)
+						}
+					}
+					if dec := utf16.DecodeRune(r, r2); dec != 0xFFFD {
+						p.i += 6
+						r = dec
+					} else {
+						r = 0xFFFD
+					}
+				}
+				sb.WriteRune(r)
 			default:
 				return "", errJSON
 			}
@@ -408,7 +425,8 @@ func c16Check(text string, cut, failAt int) string {
 
 // ---- generator ----------------------------------------------------------------------
 
-var c16Scalars = []string{`1`, `"x"`, `true`, `null`, `-0`, `1.5`, `1e21`, `1e-7`, `false`, `""`, `"a b"`, `"é\n"`, `0.1`, `12345678901234567890`, `"#obj"`}
+var c16Scalars = []string{`1`, `"x"`, `true`, `null`, `-0`, `1.5`, `1e21`, `1e-7`, `false`, `""`, `"a b"`, `"é\n"`, `0.1`, `12345678901234567890`, `"#obj"`,
+	`0.30000000000000004`, `1.7976931348623157e308`, `5e-324`, `1E5`, `-1.5e-3`, `9007199254740993`, `"\u00e9\ud83d\ude00"`, `"q\"\\\/"`, `"<&>"`, `123456789`, `0.000001`, `1e-5`, `100000000000000000000`, `2.5E+3`}
 var c16Keys = []string{"a", "b", "", "#obj", "a"}
 
 // c16Values enumerates JSON texts by token budget and depth; ws selects the
@@ -504,8 +522,11 @@ func C16(c *run.Check) {
 		budget, depth, ns = 5, 3, 10
 	}
 	vals := c16Values(budget, depth, ns)
-	// also every scalar alone and a few hand-written shapes
+	// also every scalar alone, in an array, as a member, and a few hand-written shapes
 	vals = append(vals, c16Scalars...)
+	for _, sc := range c16Scalars {
+		vals = append(vals, "["+sc+"]", `{"k":`+sc+`}`, "[1,"+sc+",[]]", `{"é":`+sc+`,"a b":[`+sc+`]}`)
+	}
 	vals = append(vals, `{"a":{"b":[{"a":1},[],{}]},"b":[[[]]]}`, `[{"a":[1,{"b":null}]},2]`, `{"a":[],"b":{},"a":[{}]}`, `[[],[[]],[[],[]]]`, `{"":{"":{"":1}}}`, `[1,[2,[3,[4]]]]`, `{"a":"x","a":"y"}`)
 	var texts []string
 	for i, v := range vals {
